@@ -414,10 +414,20 @@ func (e *Executor) startExecution(ctx context.Context, t *ast.Task, execute func
 		return execute(ctx)
 	}
 
+	// The executions that this call is (indirectly) part of: waiting for one of
+	// them would mean waiting for ourselves
+	chain, _ := ctx.Value(executionChainKey{}).([]string)
+
 	e.executionHashesMutex.Lock()
 
 	if otherExecutionCtx, ok := e.executionHashes[h]; ok {
 		e.executionHashesMutex.Unlock()
+		if slices.Contains(chain, h) {
+			return &errors.TaskCalledTooManyTimesError{
+				TaskName:        t.Task,
+				MaximumTaskCall: MaximumTaskCall,
+			}
+		}
 		e.Logger.VerboseErrf(logger.Magenta, "task: skipping execution of task: %s\n", h)
 
 		// Release our execution slot to avoid blocking other tasks while we wait
@@ -442,9 +452,13 @@ func (e *Executor) startExecution(ctx context.Context, t *ast.Task, execute func
 	e.executionHashes[h] = doneCtx
 	e.executionHashesMutex.Unlock()
 
-	err = execute(ctx)
+	err = execute(context.WithValue(ctx, executionChainKey{}, append(slices.Clone(chain), h)))
 	return err
 }
+
+// executionChainKey is the context key of the hashes of the deduplicated
+// executions a call is nested in.
+type executionChainKey struct{}
 
 // FindMatchingTasks returns a list of tasks that match the given call. A task
 // matches a call if its name is equal to the call's task name or if it matches
